@@ -139,7 +139,9 @@ def _conform(sc, res):
         if st["a"] == "Decide":
             e = post["res"][st["p"]][st["k"]]
             got = _obs_res(sc, res, i)
-            if got[0] != e[0] or (e[0] == "reuse" and got[1] != e[1]):
+            # which connection an accepting end returned is not observable (AcceptWithListener drops it; with a snapshot that
+            # went stale it is not the entry the peer keeps): compared for dialing ends only
+            if got[0] != e[0] or (e[0] == "reuse" and dialer(st["k"]) == st["p"] and got[1] != e[1]):
                 diffs.append("%s: end returned %s, specification says %s" % (tag, list(got), e))
     return diffs
 
